@@ -14,10 +14,40 @@ Definition MAXLEN : nat := Z.to_nat 2147483647.
 (* the result of a constructor: the vector, unless it is longer than i32::MAX (then make panics) *)
 Definition made (w : list N) : option (list N) := if Nat.ltb MAXLEN (length w) then None else Some w.
 
+(* case analysis on every comparison that occurs in the goal, whatever its orientation *)
+Ltac gbools :=
+  repeat match goal with
+         | |- context [N.leb ?a ?b] => destruct (N.leb a b) eqn:?
+         | |- context [N.ltb ?a ?b] => destruct (N.ltb a b) eqn:?
+         | |- context [N.eqb ?a ?b] => destruct (N.eqb a b) eqn:?
+         | |- context [Z.leb ?a ?b] => destruct (Z.leb a b) eqn:?
+         | |- context [Z.ltb ?a ?b] => destruct (Z.ltb a b) eqn:?
+         | |- context [Z.eqb ?a ?b] => destruct (Z.eqb a b) eqn:?
+         | |- context [Nat.leb ?a ?b] => destruct (Nat.leb a b) eqn:?
+         | |- context [Nat.ltb ?a ?b] => destruct (Nat.ltb a b) eqn:?
+         | |- context [Nat.eqb ?a ?b] => destruct (Nat.eqb a b) eqn:?
+         end.
+Ltac gfin := cbn [negb andb orb]; first [ reflexivity | congruence | (exfalso; lia) | (f_equal; lia) | (f_equal; f_equal; lia) ].
+
+(* i32::MAX as a unary nat is never computed: every comparison with it is turned into a comparison in Z *)
+Lemma leb_maxlen n : Nat.leb n (Z.to_nat 2147483647) = (Z.of_nat n <=? 2147483647)%Z.
+Proof.
+  destruct (Nat.leb n (Z.to_nat 2147483647)) eqn:E; symmetry.
+  - apply Nat.leb_le, Nat2Z.inj_le in E. rewrite Z2Nat.id in E by (intro Hc; discriminate Hc). apply Z.leb_le. exact E.
+  - apply Nat.leb_gt, Nat2Z.inj_lt in E. rewrite Z2Nat.id in E by (intro Hc; discriminate Hc). apply Z.leb_gt. exact E.
+Qed.
+
+Lemma made_spec a : made a = if (Z.of_nat (length a) <=? 2147483647)%Z then Some a else None.
+Proof.
+  unfold made, MAXLEN. rewrite Nat.ltb_antisym, leb_maxlen.
+  destruct (Z.of_nat (length a) <=? 2147483647)%Z; reflexivity.
+Qed.
+
+(* the length test of make, in either orientation (the bound is never unfolded to a numeral) *)
 Lemma link_make a : option_map SmtString_s (M_SmtString_make a) = made a.
 Proof.
   unfold M_SmtString_make, SmtString_make, MAX_LENGTH, made, MAXLEN, bind.
-  destruct (Nat.ltb (Z.to_nat 2147483647) (length a)); reflexivity.
+  rewrite ?Nat.ltb_antisym. destruct (Nat.leb (length a) (Z.to_nat 2147483647)); reflexivity.
 Qed.
 
 Lemma link_len s : M_SmtString_len s = Some (length (SmtString_s s)).        Proof. reflexivity. Qed.
@@ -26,27 +56,40 @@ Proof. destruct s as [[|x l]]; reflexivity. Qed.
 Lemma link_EMPTY : SmtString_s EMPTY = [].                                    Proof. reflexivity. Qed.
 
 (* ---- constructors (C17): clamp exactly the integers above MAX_CHAR ---- *)
-Lemma clamp_eq x : (if x <=? MAX_CHAR then x else REPLACEMENT_CHAR) = clampc x.   Proof. reflexivity. Qed.
+(* pointwise facts about the clamp, whichever comparison the code uses *)
+Ltac pointwise := intros; cbv [clampc MAX_CHAR REPLACEMENT_CHAR MAXC REPLC]; gbools; gfin.
 
 Lemma link_from_slice a : option_map SmtString_s (M_SmtString_from_slice_u32 a) = made (from_slice a).
-Proof. unfold M_SmtString_from_slice_u32, SmtString_from_slice_u32. rewrite link_make. reflexivity. Qed.
+Proof.
+  unfold M_SmtString_from_slice_u32, SmtString_from_slice_u32, from_slice. rewrite link_make, ?map_map.
+  first [ reflexivity | (f_equal; apply map_ext; pointwise) ].
+Qed.
+
+Lemma forallb_ext {A} (f g : A -> bool) l : (forall x, f x = g x) -> forallb f l = forallb g l.
+Proof. intros H. induction l as [|x l IH]; [reflexivity|]. cbn. rewrite H, IH. reflexivity. Qed.
 
 Lemma link_from_vec a : option_map SmtString_s (M_SmtString_from_Vec_u32 a) = made (from_vec a).
 Proof.
   unfold M_SmtString_from_Vec_u32, SmtString_from_Vec_u32, from_vec.
-  change (forallb (fun v_x => v_x <=? MAX_CHAR) a) with (forallb (fun x => x <=? MAXC) a).
-  destruct (forallb (fun x => x <=? MAXC) a); [apply link_make | apply link_from_slice].
+  match goal with |- context [forallb ?f a] =>
+    replace (forallb f a) with (forallb (fun x => x <=? MAXC) a) by (apply forallb_ext; pointwise) end.
+  destruct (forallb (fun x => x <=? MAXC) a); cbn [negb]; first [apply link_make | apply link_from_slice].
 Qed.
 
 Lemma link_from_u32 x : option_map SmtString_s (M_SmtString_from_u32 x) = Some (from_u32 x).
-Proof. reflexivity. Qed.
+Proof.
+  unfold M_SmtString_from_u32, SmtString_from_u32, from_u32. rewrite link_make.
+  rewrite made_spec. cbn [length Z.of_nat Z.leb Z.compare Pos.of_succ_nat Pos.compare Pos.compare_cont].
+  first [ reflexivity | (f_equal; f_equal; pointwise) ].
+Qed.
 
 Lemma link_from_char x : option_map SmtString_s (M_SmtString_from_char x) = Some (from_char x).
-Proof. reflexivity. Qed.
+Proof. unfold M_SmtString_from_char, SmtString_from_char. apply link_from_u32. Qed.
 
 Lemma link_from_str t : option_map SmtString_s (M_SmtString_from_str t) = made (from_str t).
 Proof.
-  unfold M_SmtString_from_str, SmtString_from_str. rewrite link_make, map_map. reflexivity.
+  unfold M_SmtString_from_str, SmtString_from_str, from_str. rewrite link_make, ?map_map.
+  first [ reflexivity | (f_equal; apply map_ext; pointwise) ].
 Qed.
 
 (* ---- char_is_digit ---- *)
@@ -73,15 +116,24 @@ Ltac lleaf IH :=
   first [ reflexivity | discriminate | (exfalso; lia) | congruence | apply IH
         | (rewrite IH; first [ reflexivity | (f_equal; lia) ]) | (f_equal; lia) ].
 
+Ltac sstep :=
+  match goal with
+  | |- context [N.eqb ?a ?b] =>
+      match goal with |- context [N.eqb b a] => tryif constr_eq a b then fail else rewrite (N.eqb_sym b a) end
+  | |- context [match ?x with _ => _ end] =>
+      lazymatch x with
+      | context [match _ with _ => _ end] => fail
+      | _ => destruct x eqn:?
+      end
+  end; cbv [bind option_map]; cbn [scan_ok].
+Ltac sleaf IH := first [ reflexivity | discriminate | congruence | (exfalso; lia) | apply IH ].
+
 Lemma link_scan_lt fuel v w mx i :
   scan_ok (fn_vector_lt_loop1 fuel v w mx i) (skip_equal fuel v w mx i).
 Proof.
   revert i; induction fuel as [|fuel IH]; intros i; [reflexivity|].
   cbn [fn_vector_lt_loop1 skip_equal]. replace (i + 1)%nat with (S i) by lia. lnorm.
-  destruct (Nat.ltb i mx); [|reflexivity].
-  destruct (nth_error v i) as [a|]; [|reflexivity].
-  destruct (nth_error w i) as [b|]; [|reflexivity].
-  destruct (a =? b); [apply IH | reflexivity].
+  repeat sstep; sleaf IH.
 Qed.
 
 Lemma link_scan_le fuel v w mx i :
@@ -89,10 +141,7 @@ Lemma link_scan_le fuel v w mx i :
 Proof.
   revert i; induction fuel as [|fuel IH]; intros i; [reflexivity|].
   cbn [fn_vector_le_loop1 skip_equal]. replace (i + 1)%nat with (S i) by lia. lnorm.
-  destruct (Nat.ltb i mx); [|reflexivity].
-  destruct (nth_error v i) as [a|]; [|reflexivity].
-  destruct (nth_error w i) as [b|]; [|reflexivity].
-  destruct (a =? b); [apply IH | reflexivity].
+  repeat sstep; sleaf IH.
 Qed.
 
 Definition lt_fuel (v w : list N) : nat := S (Nat.min (length v) (length w)).
@@ -101,14 +150,16 @@ Lemma link_vector_lt v w : M_fn_vector_lt (lt_fuel v w) v w = vector_lt v w.
 Proof.
   unfold M_fn_vector_lt, fn_vector_lt, vector_lt, lt_fuel.
   pose proof (link_scan_lt (S (Nat.min (length v) (length w))) v w (Nat.min (length v) (length w)) 0) as H.
-  destruct (fn_vector_lt_loop1 _ v w _ 0) as [[b|i]|]; cbn [scan_ok] in H; [contradiction | |]; rewrite H; reflexivity.
+  destruct (fn_vector_lt_loop1 _ v w _ 0) as [[b|i]|]; cbn [scan_ok] in H; [contradiction | |]; rewrite H; lnorm;
+    [|reflexivity]. gbools; repeat sstep; gfin.
 Qed.
 
 Lemma link_vector_le v w : M_fn_vector_le (lt_fuel v w) v w = vector_le v w.
 Proof.
   unfold M_fn_vector_le, fn_vector_le, vector_le, lt_fuel.
   pose proof (link_scan_le (S (Nat.min (length v) (length w))) v w (Nat.min (length v) (length w)) 0) as H.
-  destruct (fn_vector_le_loop1 _ v w _ 0) as [[b|i]|]; cbn [scan_ok] in H; [contradiction | |]; rewrite H; reflexivity.
+  destruct (fn_vector_le_loop1 _ v w _ 0) as [[b|i]|]; cbn [scan_ok] in H; [contradiction | |]; rewrite H; lnorm;
+    [|reflexivity]. gbools; repeat sstep; gfin.
 Qed.
 
 Lemma link_str_lt s1 s2 :
@@ -139,9 +190,9 @@ Lemma link_str_from_code x : option_map SmtString_s (M_fn_str_from_code x) = Som
 Proof.
   unfold M_fn_str_from_code, fn_str_from_code, str_from_code.
   change (GenBase.u32_as_i32 MAX_CHAR) with 196607%Z. change (Z.of_N MAXC) with 196607%Z.
-  destruct ((0 <=? x)%Z && (x <=? 196607)%Z) eqn:E; [|reflexivity].
-  rewrite link_from_u32. unfold from_u32, smt_of_u32. f_equal. f_equal. f_equal.
-  unfold i32_as_u32. rewrite Z.mod_small by lia. reflexivity.
+  assert (F : (0 <= x <= 196607)%Z -> option_map SmtString_s (M_SmtString_from_u32 (i32_as_u32 x)) = Some (smt_of_u32 (Z.to_N x))).
+  { intros Hx. rewrite link_from_u32. unfold from_u32, smt_of_u32, i32_as_u32. rewrite Z.mod_small by lia. reflexivity. }
+  gbools; cbn [negb andb orb]; first [ reflexivity | (apply F; lia) | (exfalso; lia) ].
 Qed.
 
 (* ---- str_to_int (after repair D5) ---- *)
@@ -189,3 +240,20 @@ Proof.
   rewrite <- (link_to_int_loop (c :: l) F 0%Z).
   destruct (fn_str_to_int_loop1 (c :: l) 0) as [[x|x]|]; reflexivity.
 Qed.
+
+(* ---- accessors of SmtString (C17): is_good uses the bound that make enforces (after repair D12);
+   the comparison is on lengths no test can build, so this link is the only check of it ---- *)
+Require Import StrSearch StrMisc.
+
+Lemma link_good_char x : M_fn_good_char x = Some (good_char x).              Proof. reflexivity. Qed.
+Lemma link_good_string a : M_fn_good_string a = Some (good_string a).        Proof. reflexivity. Qed.
+
+Lemma link_is_good s : M_SmtString_is_good s = Some (smt_is_good (SmtString_s s)).
+Proof.
+  unfold M_SmtString_is_good, SmtString_is_good, smt_is_good, StrConvGen.MAX_LENGTH, StrSearch.MAX_LENGTH.
+  rewrite link_good_string.
+  rewrite ?Nat.ltb_antisym, ?leb_maxlen.
+  destruct (Z.of_nat (length (SmtString_s s)) <=? 2147483647)%Z; reflexivity.
+Qed.
+
+Lemma link_char s i : M_SmtString_char s i = smt_char (SmtString_s s) i.     Proof. reflexivity. Qed.
